@@ -183,21 +183,23 @@ theorem C02_structured_formula_wellgrouped (g : Gram) (n : Nat) (ts : List Tok) 
     where an operand is expected is the prefix: `f(a) - b` is one formula of two operands, and in a
     matrix row `[f(a) -b]` (element separator before the `-`) it starts the second element. -/
 theorem C02_dash_after_bracket (g : Gram) (hs : 1 ≤ g.sub.lvl ∧ g.sub.lvl ≤ g.N) (f a b : Nat) :
-    pForm g 12 [.id f, .lp, .id a, .rp, .dash, .id b] =
-      some (.node (.leaf (.call f [.form (.leaf (.var a))])) g.sub (.leaf (.var b)), []) ∧
+    pForm g 13 [.id f, .lp, .id a, .rp, .dash, .id b] =
+      some (.node (.leaf (.call f [.pos (.form (.leaf (.var a)))])) g.sub (.leaf (.var b)), []) ∧
     pFac g 20 [.lb, .id f, .lp, .id a, .rp, .sp, .dash, .id b, .rb] =
-      some (.mat [[.form (.leaf (.call f [.form (.leaf (.var a))])), .form (.leaf (.neg (.var b)))]], []) := by
+      some (.mat [[.form (.leaf (.call f [.pos (.form (.leaf (.var a)))])), .form (.leaf (.neg (.var b)))]], []) := by
   constructor
-  · have h1 := (rt_all g 12).2.2.1 (.node (.leaf (.call f [.form (.leaf (.var a))])) g.sub (.leaf (.var b)))
-      (by simp [costT, costF, costEs, costE])
+  · have h1 := (rt_all g 13).2.2.1 (.node (.leaf (.call f [.pos (.form (.leaf (.var a)))])) g.sub (.leaf (.var b)))
+      (by simp [costT, costF, costArgs, costArg, costE])
       ⟨by simp [WellGrouped, Tree.ops, Tree.tail], by intro x hx; simp [Tree.tail, Tree.first] at hx; subst hx; exact hs,
-       by simp [okL, okF, okEs, okE, WellGrouped, OpsIn, Tree.tail]⟩ [] (by intro t r e; cases e)
-    simp only [rTrm, rFac, rExs, rEx, Gram.opTok, if_true, List.append_nil, List.cons_append, List.nil_append] at h1
+       by simp [okL, okF, okArgs, okArg, okE, WellGrouped, OpsIn, Tree.tail, Tree.first, lastOp, Fac.open]⟩ [] (by intro t r e; cases e)
+      (by intro _ t r e; cases e)
+    simp only [rTrm, rFac, rArgs, rArg, rEx, Gram.opTok, if_true, List.append_nil, List.cons_append, List.nil_append] at h1
     exact h1
-  · have h2 := (rt_all g 20).1 (.mat [[.form (.leaf (.call f [.form (.leaf (.var a))])), .form (.leaf (.neg (.var b)))]])
-      (by simp [costF, costRows, costEs, costE, costT])
-      (by simp [okF, okRows, okEs, okE, okL, WellGrouped, OpsIn, Tree.tail, Tree.ops]) [] (by intro t r e; cases e)
-    simp only [rFac, rRows, rRow, rExs, rEx, rTrm, List.append_nil, List.cons_append, List.nil_append, List.append_assoc] at h2
+  · have h2 := (rt_all g 20).1 (.mat [[.form (.leaf (.call f [.pos (.form (.leaf (.var a)))])), .form (.leaf (.neg (.var b)))]])
+      (by simp [costF, costRows, costEs, costE, costT, costArgs, costArg])
+      (by simp [okF, okRows, okEs, okE, okL, okArgs, okArg, WellGrouped, OpsIn, Tree.tail, Tree.ops]) [] (by intro t r e; cases e)
+      (by intro _ t r e; cases e)
+    simp only [rFac, rRows, rRow, rExs, rArgs, rArg, rEx, rTrm, List.append_nil, List.cons_append, List.nil_append, List.append_assoc] at h2
     exact h2
 
 end MechVerif.Syntax
